@@ -433,7 +433,16 @@ class CustomMode:
 
         # Read the file without forcing its data type
         all_data: "pd.DataFrame" = load_table(custom_file, dtype=None)
-        filtered_data: "pd.DataFrame" = all_data.loc[:, custom_columns]
+        # Select the columns by position. The range 'custom_columns' is half-open
+        if custom_columns is None:
+            selected_data: "pd.DataFrame" = all_data
+        else:
+            selected_data = all_data.iloc[:, custom_columns]
+
+        # The selected columns are numbered from 0
+        filtered_data: "pd.DataFrame" = selected_data.set_axis(
+            range(len(selected_data.columns)), axis="columns"
+        )
 
         # Sanity check
         num_columns = len(filtered_data.columns)
